@@ -2,8 +2,9 @@
 
 theorems      : coq/Props/C13.v  (face partition for connection lists of any length, declared connections,
                 interiors, logical twin, get_boundary, get_subdomain)
-correspondence: coq/Model/TopologyM.v (join / map_domain / get_boundary / get_subdomain) against the real
-                sympde objects on generated layouts, decided inside Coq
+correspondence: coq/Model/TopologyM.v (join / map_domain / get_boundary / get_subdomain) and coq/Model/CornersM.v
+                (get_shared_corners / Boundary.rotate / adjacent_boundaries) against the real sympde objects on
+                generated layouts, decided inside Coq
 oracle        : the property itself, evaluated on the implementation's outputs against the *geometry* of the
                 generated layout (which faces of the grid touch, which corners coincide); independent of the model
 
@@ -14,7 +15,11 @@ Case grammar (neutral JSON):
    "conns": [{"m":[i,axis,ext], "p":[i,axis,ext], "o": null|int|[f,o1,o2], "mix": "m"|"p"?}],
    "mapjoined": str?                    a single mapping applied to the joined plain domain
    "queries": {"getb":[[target,axis,ext]..] (target -1: the joined domain), "sub":[{"s":name}|{"t":[names]}],
-               "corners": bool},
+               "corners": bool,
+               "rot":[[patch,axis,ext,[dir..]]..]   Boundary.rotate( *dirs ) on a face of a single patch
+               "adj":[[patch,axis,ext]..],          Boundary.adjacent_boundaries of a face of a single patch
+               "igetb":[[patch,axis,ext]..],        NCubeInterior.get_boundary on the interior of a single patch
+               "cbn":[[patch,axis,ext,patch,axis,ext]..]},   CornerBoundary(face, face) built directly
    "geo": {"shape","periodic","pos","flips","consistent","wellformed"}}   what the oracle knows about the layout
 """
 import copy
@@ -132,7 +137,28 @@ def phys_name(p):
 
 def gen_queries(rng, case):
     d, n = case["dim"], len(case["patches"])
-    q = {"getb": [], "sub": [], "corners": d == 2 and len(case["conns"]) > 0}
+    # shared corners: every 2-D layout with connections; the other dimensions / no connection at all reach the
+    # refusing arms of get_shared_corners (None is not iterable, rotate asserts the number of directions)
+    q = {"getb": [], "sub": [], "corners": (d == 2 and len(case["conns"]) > 0) or rng.random() < 0.4,
+         "rot": [], "adj": [], "igetb": [], "cbn": []}
+    for _ in range(3):
+        i = rng.randrange(n)
+        pd = case["patches"][i]["dim"]
+        nd = rng.choice([pd - 1, pd - 1, pd - 1, pd - 1, pd, max(pd - 2, 0)])
+        dirs = [rng.choice([1, -1, 1, -1, 1, -1, 0, 2, None, [1, 1, 1]]) for _ in range(nd)]
+        q["rot"].append([i, rng.randrange(pd), rng.choice([-1, 1]), dirs])
+    for _ in range(2):
+        i = rng.randrange(n)
+        q["adj"].append([i, rng.randrange(case["patches"][i]["dim"]), rng.choice([-1, 1])])
+    i = rng.randrange(n)
+    pd = case["patches"][i]["dim"]
+    q["igetb"] = [[i, rng.choice(list(range(pd)) + [pd]), rng.choice([-1, 1, -1, 1, 0, 2])]]
+    q["cbn"] = []
+    for _ in range(2):
+        i = rng.randrange(n)
+        j = i if rng.random() < 0.8 else rng.randrange(n)
+        q["cbn"].append([i, rng.randrange(case["patches"][i]["dim"]), rng.choice([-1, 1]),
+                         j, rng.randrange(case["patches"][j]["dim"]), rng.choice([-1, 1])])
     for _ in range(3):
         q["getb"].append([-1, rng.choice(list(range(d)) + [d]), rng.choice([-1, 1, -1, 1, 0, 2])])
     for _ in range(2):
@@ -166,6 +192,8 @@ def gen_malformed(rng, maxn):
             "thirdpair"]
     if d >= 2:
         muts += ["diffaxes"]
+    if d == 2:
+        muts += ["ornt2bad", "ornt2bad"]
     if d == 3:
         muts += ["ornt3int"]
     mut = rng.choice(muts)
@@ -209,6 +237,9 @@ def gen_malformed(rng, maxn):
         case["conns"] = [] if mut == "dim4" else [{"m": [0, 0, 1], "p": [1, 0, -1], "o": None}]
     elif mut == "ornt3int":
         c0["o"] = 1
+    elif mut == "ornt2bad":
+        # Domain.join stores any value as the orientation of a 2-D interface; Boundary.rotate refuses it later
+        c0["o"] = rng.choice([0, 2, -2, [1, 1, 1]])
     elif mut == "thirdpair":
         # three connections between the same two patches on pairwise distinct faces (d >= 2 needed for 3)
         case["conns"] = []
@@ -217,7 +248,7 @@ def gen_malformed(rng, maxn):
             case["conns"].append({"m": [0, a, -1], "p": [1, a, 1], "o": default_ornt(d)})
         case["conns"] = case["conns"][:max(3, rng.randint(2, 2 * d))] if d >= 2 else case["conns"]
         case["geo"]["wellformed"] = True       # faces exist, are pairwise distinct, axes agree
-    case["queries"] = gen_queries(rng, case) if case["patches"] else {"getb": [], "sub": [], "corners": False}
+    case["queries"] = gen_queries(rng, case) if case["patches"] else {"getb": [], "sub": [], "corners": False, "rot": [], "adj": [], "igetb": [], "cbn": []}
     if mut in ("dim4", "dim4c"):
         case["queries"]["corners"] = False
     return case
@@ -334,6 +365,7 @@ def coq_domain_of_json(em, dj, table):
 
 
 ERRS = {"EAssert", "EValue", "EType", "EIndex", "EAttr", "EUnbound", "EKey"}
+CI_CANONICAL = [False]       # set by main from the runner's probe of CornerInterface.__new__
 
 
 def coq_res(em, r, enc, table):
@@ -384,6 +416,13 @@ def emit_inputs(em, case, res_patches=None):
     return doms, table, ps, cs, checks
 
 
+def corner_wf(case, res):
+    """a 2-D layout whose interface list is well formed in the sense of Props/C13c.v (cwf): the answer of
+    get_shared_corners is then independent of set.pop()"""
+    return bool(case["geo"].get("wellformed") and "ok" in res["join"] and case["dim"] == 2
+                and case["kind"] in ("grid", "mapjoined") and case["conns"])
+
+
 def case_checks(k, case, res):
     """Returns (definitions text, [(label, boolean term, diagnostic term)])."""
     em = Emit("c%d" % k)
@@ -393,11 +432,11 @@ def case_checks(k, case, res):
         jt = "@bind domain domain (%s) (map_domain %s)" % (jt, coq_str(case["mapjoined"]))
     J = em.define("J", "res domain", jt)
     enc_dom = lambda dj: coq_domain_of_json(em, dj, table)
+    enc_face = lambda f: "(mkFace %s %d %s)" % (table[f[0]], f[1], zlit(f[2])) if f[0] in table else "UNKNOWN_PATCH"
     checks.append(("join", "res_domain_sim %s %s" % (J, coq_res(em, res["join"], enc_dom, table)), J))
     for qi, ((tgt, a, e), r) in enumerate(zip(case["queries"]["getb"], res["getb"])):
         obj = ("@bind domain face %s (fun d => get_boundary d %d %s)" % (J, a, zlit(e))) if tgt < 0 else \
             ("get_boundary %s %d %s" % (doms[tgt], a, zlit(e)))
-        enc_face = lambda f: "(mkFace %s %d %s)" % (table[f[0]], f[1], zlit(f[2])) if f[0] in table else "UNKNOWN_PATCH"
         checks.append(("getb%d" % qi, "res_face_sim (%s) %s" % (obj, coq_res(em, r, enc_face, table)), obj))
     for qi, (sel, r) in enumerate(zip(case["queries"]["sub"], res["sub"])):
         st = "(SelStr %s)" % coq_str(sel["s"]) if "s" in sel else "(SelTuple %s)" % coq_list([coq_str(x) for x in sel["t"]])
@@ -409,6 +448,63 @@ def case_checks(k, case, res):
             # a proper selection that succeeded: the hypotheses of C13_get_subdomain_spec hold (decided inside Coq)
             hy = "match %s with Ok d => sub_hyps_b d %s | Err _ => false end" % (J, coq_list([coq_str(x) for x in sel["t"]]))
             checks.append(("subwf%d" % qi, hy, hy))
+    # Boundary.rotate / Boundary.adjacent_boundaries on the faces of the single patches (Model/CornersM.v)
+    for qi, ((i, a, e, dirs), r) in enumerate(zip(case["queries"].get("rot", []), res.get("rot", []))):
+        fc = "(mkFace %s %d %s)" % (table[phys_name(case["patches"][i])], a, zlit(e))
+        obj = "rotate %s %s" % (fc, coq_list([coq_ornt(o) for o in dirs]))
+        checks.append(("rot%d" % qi, "rotate_sim (%s) %s" % (obj, coq_res(em, r, enc_face, table)), obj))
+    for qi, ((i, a, e), r) in enumerate(zip(case["queries"].get("igetb", []), res.get("igetb", []))):
+        obj = "patch_get_boundary %s %d %s" % (table[phys_name(case["patches"][i])], a, zlit(e))
+        checks.append(("igetb%d" % qi, "res_face_sim (%s) %s" % (obj, coq_res(em, r, enc_face, table)), obj))
+    for qi, ((i, a, e, j, a2, e2), r) in enumerate(zip(case["queries"].get("cbn", []), res.get("cbn", []))):
+        f0 = "(mkFace %s %d %s)" % (table[phys_name(case["patches"][i])], a, zlit(e))
+        f1 = "(mkFace %s %d %s)" % (table[phys_name(case["patches"][j])], a2, zlit(e2))
+        obj = "match cb_new (%s, %s) with Ok c => Ok [fst c; snd c] | Err e => Err e end" % (f0, f1)
+        enc_fl = lambda l: "(%s : list face)" % coq_list([enc_face(f) for f in l])
+        checks.append(("cbn%d" % qi, "faces_sim (%s) %s" % (obj, coq_res(em, r, enc_fl, table)), obj))
+    for qi, ((i, a, e), r) in enumerate(zip(case["queries"].get("adj", []), res.get("adj", []))):
+        fc = "(mkFace %s %d %s)" % (table[phys_name(case["patches"][i])], a, zlit(e))
+        obj = "@Ok (list face) (adjacent_boundaries %s)" % fc       # an empty Union (None) is read as []
+        enc_faces = lambda l: "(%s : list face)" % coq_list([enc_face(f) for f in l])
+        checks.append(("adj%d" % qi, "faces_sim (%s) %s" % (obj, coq_res(em, r, enc_faces, table)), obj))
+    # the grouping of shared corners (Model/CornersM.v).  The model is run with the order in which THIS run of the
+    # implementation took the corners out of the set (recorded by the runner), and with the CornerInterface the
+    # implementation has (probed by the runner: ordered by patch name only, or canonically): the answers must be
+    # identical.  Without a recorded order (a changed source text): list order, compared modulo the order inside a group.
+    if "corners" in res:
+        r = res["corners"]
+        fn = "get_shared_corners" if CI_CANONICAL[0] else "get_shared_corners_legacy"
+        gsc = lambda f, start: "match %s with Ok d => %s %s d | Err e => CErr e end" % (J, f, start)
+        enc_corner = lambda c: "(%s, %s)" % (enc_face(c[2][0]), enc_face(c[2][1]))
+        if "ok" in r:
+            imp = "(COk %s)" % coq_list([coq_list([enc_corner(c) for c in g]) for g in r["ok"]])
+        elif r["err"] == "timeout":
+            imp = "CFuel"
+        else:
+            imp = "(CErr %s)" % (r["err"] if r["err"] in ERRS else "ENotImpl")
+        I = em.define("I", "cres (list (list corner))", imp)
+        pops = res.get("corner_pops") or []
+        if pops and all(p is not None for p in pops):
+            seq = em.define("pops", "list corner", coq_list(["(%s, %s)" % (enc_face(a), enc_face(b)) for a, b in pops]))
+            M = em.define("M", "cres (list (list corner))", gsc(fn, "(start_of %s)" % seq))
+            checks.append(("corners", "corners_same %s %s" % (M, I), M))
+        else:
+            M = em.define("M", "cres (list (list corner))", gsc("get_shared_corners", "(fun l => l)"))
+            checks.append(("corners", "corners_sim %s %s" % (M, I), M))
+        # information only (an alarm once CornerInterface is canonical): is the answer the canonical one?
+        C = em.define("C", "cres (list (list corner))", gsc("get_shared_corners", "(fun l => l)"))
+        checks.append(("info_cornerorder" if corner_wf(case, res) else "info_cornerorder_illformed", "corners_same %s %s" % (C, I), C))
+        if corner_wf(case, res):
+            # the hypotheses of the theorems of Props/C13c.v hold for this domain; the recorded order, the list order
+            # and the reversed list give the same (canonical) answer (all decided inside Coq)
+            hy = "match %s with Ok d => cwf_b (interfaces d) | Err _ => false end" % J
+            checks.append(("cwf", hy, hy))
+            checks.append(("cstart", "corners_same %s (%s)" % (C, gsc("get_shared_corners", "(@rev corner)")),
+                           gsc("get_shared_corners", "(@rev corner)")))
+            if pops and all(p is not None for p in pops):
+                checks.append(("cstartrun", "corners_same %s (%s)" % (C, gsc("get_shared_corners", "(start_of %s)" % seq)), C))
+            sj = "match %s with COk R => str_inj_b R | _ => false end" % C
+            checks.append(("cstr", sj, sj))
     if case["geo"].get("wellformed") and "ok" in res["join"] and not case.get("mapjoined") and case["kind"] != "sharedlog":
         # the hypotheses of the theorems of Props/C13.v hold for this input (decided inside Coq)
         checks.append(("wf", "wf_join_b %s %s || negb (pair_bound_b %s %s)" % (ps, cs, ps, cs), "wf_join_b %s %s" % (ps, cs)))
@@ -416,7 +512,7 @@ def case_checks(k, case, res):
 
 
 HEADER = """From Coq Require Import String List Bool Arith ZArith.
-From V Require Import Core.Canon Model.TopologyM Proofs.TopologyP.
+From V Require Import Core.Canon Model.TopologyM Proofs.TopologyP Model.CornersM Proofs.CornersP.
 Import ListNotations. Open Scope string_scope.
 Set Printing Width 1000000. Set Printing Depth 1000000.
 """
@@ -635,7 +731,7 @@ def oracle(case, res):
                 break
     # --- shared corners against the geometry
     if wf and geo.get("consistent") and d == 2 and case["queries"].get("corners") and not case.get("mapjoined") \
-            and not pair_overwrite(case) and "corners" in res:
+            and not pair_overwrite(case) and "corners" in res and case["conns"]:
         r = res["corners"]
         truth = corner_truth(case, pnames)
         if "ok" not in r:
@@ -772,6 +868,11 @@ def drop_patch(best, i):
             if cn[s][0] > i:
                 cn[s][0] -= 1
     c["queries"]["getb"] = [[t - (1 if t > i else 0), a, e] for t, a, e in c["queries"]["getb"] if t != i]
+    c["queries"]["rot"] = [[t - (1 if t > i else 0), a, e, ds] for t, a, e, ds in c["queries"].get("rot", []) if t != i]
+    c["queries"]["adj"] = [[t - (1 if t > i else 0), a, e] for t, a, e in c["queries"].get("adj", []) if t != i]
+    c["queries"]["igetb"] = [[t - (1 if t > i else 0), a, e] for t, a, e in c["queries"].get("igetb", []) if t != i]
+    c["queries"]["cbn"] = [[t - (1 if t > i else 0), a, e, u - (1 if u > i else 0), a2, e2]
+                           for t, a, e, u, a2, e2 in c["queries"].get("cbn", []) if t != i and u != i]
     c["queries"]["sub"] = [s for s in c["queries"]["sub"] if nm not in (s.get("t") or [s.get("s")])]
     return c
 
@@ -795,14 +896,18 @@ def shrink(case, fails_many):
         return False
     cands = []
     c = copy.deepcopy(best)
-    c["queries"]["sub"], c["queries"]["getb"] = [], []
+    LISTQ = ("sub", "getb", "rot", "adj", "igetb", "cbn")
+    for k in LISTQ:
+        c["queries"][k] = []
     c2 = copy.deepcopy(c)
     c2["queries"]["corners"] = False
     cands += [c2, c]
-    for key, other in (("sub", "getb"), ("getb", "sub")):
-        for q in best["queries"][key]:
+    for key in LISTQ:
+        for q in best["queries"].get(key, []):
             c = copy.deepcopy(best)
-            c["queries"][key], c["queries"][other], c["queries"]["corners"] = [q], [], False
+            for k in LISTQ:
+                c["queries"][k] = []
+            c["queries"][key], c["queries"]["corners"] = [q], False
             cands.append(c)
     try_batch(cands)
     for _ in range(40):
@@ -913,7 +1018,10 @@ def main(run, replay=None):
     timing["impl_s"] = round(time.time() - t0 - timing["coq_build_s"], 1)
     t1 = time.time()
     results = [None] * len(cases)
+    ci_flags = []
     for bi, (res, log) in enumerate(outs):
+        if res is not None:
+            ci_flags.append(res.get("ci_canonical"))
         if res is None:
             run.report({"kind": "runner-crash"}, "implementation runner crashed", {"log": log[-2000:]},
                        found_input=False, theorem_or_case="C13 correspondence runner")
@@ -921,6 +1029,11 @@ def main(run, replay=None):
         for i, r in zip(list(range(len(cases)))[bi::nb], res["results"]):
             results[i] = r
 
+    # CornerInterface orders the corners of one patch canonically (the repaired code): then the implementation's
+    # answer must be the model's answer as it is, and must not change with PYTHONHASHSEED.  Before the repair the
+    # order of such corners follows set.pop(): compared modulo that order, differences only counted.
+    strict_order = bool(ci_flags) and all(f is True for f in ci_flags)
+    CI_CANONICAL[0] = strict_order
     # ---------------- correspondence, decided inside Coq
     files, index, chunk, chunk_defs = {}, [], [], []
     nfail_serial = 0
@@ -958,6 +1071,7 @@ def main(run, replay=None):
     timing["coq_cases_s"] = round(time.time() - t1, 1)
     t2 = time.time()
     agree, disagree = 0, []
+    info = {}
     for name, ch in index:
         rc, out = coq_out[name]
         vals = run.parse_list_output(out) if rc == 0 else None
@@ -966,7 +1080,12 @@ def main(run, replay=None):
                        found_input=False, theorem_or_case=name)
             continue
         for (ci, term, lab, diag, defs), v in zip(ch, vals):
-            if v == "true":
+            if lab.startswith("info_"):
+                info.setdefault(lab[5:], {}).setdefault(v, 0)
+                info[lab[5:]][v] += 1
+                if strict_order and v != "true" and lab == "info_cornerorder":
+                    disagree.append((ci, lab[5:], diag, defs))
+            elif v == "true":
                 agree += 1
             else:
                 disagree.append((ci, lab, diag, defs))
@@ -978,6 +1097,39 @@ def main(run, replay=None):
             continue
         for lab, sig, msg in oracle(case, res):
             prop_fail.setdefault(ci, []).append((lab, sig, msg))
+
+    # ---------------- the corner grouping under other hash seeds (set.pop() hands out the corners in another order)
+    def same_patch_twice(r):
+        return any(len({c[0] for c in g}) < len(g) for g in r.get("ok", []))
+    probe_idx = [i for i, (c, r) in enumerate(zip(cases, results))
+                 if r is not None and "crash" not in r and "ok" in r.get("corners", {}) and corner_wf(c, r)][:40]
+    probe_idx.sort(key=lambda i: not same_patch_twice(results[i]["corners"]))
+    probe_idx = probe_idx[:16]
+    seed_dep = []
+    if probe_idx and not replay:
+        from concurrent.futures import ThreadPoolExecutor as _TPE
+
+        def other_seed(hs):
+            sub = []
+            for i in probe_idx:
+                c = copy.deepcopy(cases[i])
+                c["queries"] = {"getb": [], "sub": [], "corners": True}
+                sub.append(c)
+            r, _ = run.impl("C13_impl", {"cases": sub}, hashseed=hs)
+            return (r or {}).get("results")
+        with _TPE(max_workers=3) as ex:
+            others = list(ex.map(other_seed, ["1", "2", "3"]))
+        for k, i in enumerate(probe_idx):
+            answers = [json.dumps(results[i]["corners"].get("ok"))]
+            for o in others:
+                if o and k < len(o) and o[k] and "corners" in o[k]:
+                    answers.append(json.dumps(o[k]["corners"].get("ok")))
+            if len(set(answers)) > 1:
+                seed_dep.append(i)
+                if strict_order and corner_wf(cases[i], results[i]):
+                    prop_fail.setdefault(i, []).append(("corners", {"kind": "corners", "pred": "depends-on-hash-seed"},
+                                                        "D.corners differs between PYTHONHASHSEED values: %s" % sorted(set(answers))[:2]))
+    timing["hashseed_probe_s"] = round(time.time() - t2, 1)
 
     def fails_with(sig):
         def fails_many(cs):
@@ -1035,6 +1187,7 @@ def main(run, replay=None):
     # ---------------- evidence
     distinct, kinds, dims, npatch, nconn, errs, mapped = set(), {}, {}, {}, {}, {}, {}
     nsub = ncorner = 0
+    couts = {}
     for case, res in zip(cases, results):
         if res is None or "crash" in res:
             continue
@@ -1048,13 +1201,17 @@ def main(run, replay=None):
         errs[e] = errs.get(e, 0) + 1
         nsub += len(res["sub"])
         ncorner += 1 if "corners" in res else 0
+        if "corners" in res:
+            k = "d%d:%s" % (case["dim"], res["corners"].get("err", "ok"))
+            couts[k] = couts.get(k, 0) + 1
         if len(case["patches"]) >= 2 and ("ok" in res["join"]) and len(res["join"]["ok"]["interfaces"]) >= 1:
             distinct.add(canon_hash([case["patches"], case["conns"], case.get("byobj"), case.get("mapjoined")]))
     cov = {
         "evaluations": agree + len(disagree),
         "distinct_nontrivial": len(distinct),
         "rule": "one evaluation = one comparison, decided inside Coq, of a model output (patch construction, join, mapping of a joined "
-                "domain, get_boundary, get_subdomain, hypothesis check wf_join_b) with the output of the real code on the same input; "
+                "domain, get_boundary, get_subdomain, get_shared_corners, Boundary.rotate, Boundary.adjacent_boundaries, hypothesis "
+                "checks wf_join_b / cwf_b, start independence of the corner grouping) with the output of the real code on the same input; "
                 "non-trivial case = a join of >= 2 patches that succeeded with >= 1 interface; distinct = different (patches, "
                 "connections, by-object flag, mapping) after canonical JSON hashing",
         "cases": len(cases),
@@ -1064,6 +1221,11 @@ def main(run, replay=None):
         "oracle_failure_signatures": sorted(reported),
         "input_kinds": kinds, "dimension_histogram": dims, "patch_count_histogram": npatch, "connection_count_histogram": nconn,
         "mapped_histogram": mapped, "join_outcomes": errs, "subdomain_queries": nsub, "corner_queries": ncorner,
+        "corner_outcomes": couts, "corner_answer_in_model_order": info.get("cornerorder", {}),
+        "corner_interface_canonical": strict_order,
+        "corner_answers_probed_with_other_hash_seeds": len(probe_idx),
+        "corner_answers_changing_with_hash_seed": len(seed_dep),
+        "corner_hash_seed_sample": python_replay(cases[seed_dep[0]]) if seed_dep else None,
         "serialiser_refusals": nfail_serial, "timing": timing,
         "disagreement_labels": [[ci, lab] for ci, lab, _, _ in disagree][:20],
         "samples": [cases[i] for i in range(min(2, len(cases)))],
@@ -1081,8 +1243,23 @@ def main(run, replay=None):
         "(minus patch, plus patch) keys and names (sub_hyps, decided per case by sub_hyps_b) and C13_get_subdomain_total shows that it "
         "never fails (model of the code after commit be11fac); an interface from a selected patch to itself is outside the "
         "characterisation (C13_get_subdomain_self_interface_refuted).",
-        "Shared corners: no Coq model; the implementation's grouping is compared with the geometric ground truth of the generated grid "
-        "(2-D, geometrically consistent orientations) - sampling, not proof.",
+        "Shared corners: Domain.get_shared_corners / Boundary.rotate / Boundary.adjacent_boundaries / CornerBoundary / CornerInterface are "
+        "modelled in coq/Model/CornersM.v (the four while loops on explicit fuel, the element taken by set.pop() a parameter `start`). "
+        "Props/C13c.v proves for every well-formed 2-D interface list (cwf: faces told apart by == and str, sides are faces of squares, "
+        "equal axes, orientation 1 or -1, no face joined twice; decided per case by cwf_b; implied by the hypotheses of the face partition "
+        "for squares, C13c_join_is_well_formed) that no loop runs out of fuel and nothing is refused, that every returned corner is a "
+        "pair of adjacent faces of one patch with a face on an interface, that the groups are pairwise disjoint, cover all such corners "
+        "and are exactly the classes of corners identified through the interfaces, and that the answer does not depend on `start` "
+        "(given pairwise different printed forms of the groups of one run, decided per case by str_inj_b).",
+        "The model's answer is compared with D.corners on every generated layout that was joined (all dimensions, malformed connection "
+        "lists, refusals as a small error enum, a run-away loop = out of fuel). CornerInterface as modelled sorts its corners by (patch "
+        "name, faces) - the proposed repair; the code before that repair sorts by patch name only and keeps the walk order for two "
+        "corners of one patch, which makes D.corners depend on PYTHONHASHSEED (C13c_start_independent_legacy_refuted; counted in "
+        "coverage.corner_answers_changing_with_hash_seed). The runner probes which of the two the implementation does: for the old "
+        "code the comparison is modulo that order (and the implementation's groups must be sorted by patch name); for the repaired "
+        "code the answers must be identical and must not change under three other hash seeds.",
+        "Independently of the model the implementation's grouping is compared with the geometric ground truth of the generated grid "
+        "(2-D, geometrically consistent orientations).",
         "In 3-D an interface whose minus/plus sides are exchanged by the name-clash rule keeps the declared orientation triple; whether the "
         "triple should be inverted for flag = -1 is outside the statement checked here.",
     ]
